@@ -158,6 +158,15 @@ SITES = {"Tempo": TempoSite, "MeanFieldTempo": MeanFieldTempoSite, "PtTempo": Pt
 # ==========================================================================
 # H1 / H4: number of steps
 # ==========================================================================
+EXACT_PAIRS = [(1.0, 0.25), (-0.5, 0.5), (2.25, 0.25)]      # non-zero binary-exact start_time, binary-exact dt
+
+
+def _exact_start_instances(st, dt, m):
+    """instances that expose a dropped / mis-signed start offset within seconds"""
+    return [("start=%g, dt=%g, m<=15" % (a, b), [st == z3.FPVal(a, fpx.F64), dt == z3.FPVal(b, fpx.F64), z3.ULE(m, 15)])
+            for a, b in EXACT_PAIRS]
+
+
 class StepsOnGrid(FCase):
     env = FP_ENV
     stubs = ("Tempo/MeanFieldTempo/PtTempo objects built with __new__ + the attributes the step-count code reads "
@@ -175,7 +184,7 @@ class StepsOnGrid(FCase):
     def fp_instances(self, fi):
         st, dt, m = fi.fpvars["start"], fi.fpvars["dt"], fi.fpvars["m"]
         z = st == z3.FPVal(0.0, fpx.F64)
-        return [("start=0, dt=0.1, m<=15", [z, dt == z3.FPVal(0.1, fpx.F64), z3.ULE(m, 15)]),
+        return [("start=0, dt=0.1, m<=15", [z, dt == z3.FPVal(0.1, fpx.F64), z3.ULE(m, 15)])] + _exact_start_instances(st, dt, m) + [
                 ("start=0, m<=15", [z, z3.ULE(m, 15)]),
                 ("start=0", [z]),
                 ("m<=15", [z3.ULE(m, 15)])]
@@ -212,9 +221,9 @@ class StepsOffGrid(FCase):
         self.functions = self.site.functions
 
     def fp_instances(self, fi):
-        st, m = fi.fpvars["start"], fi.fpvars["m"]
+        st, m, dt = fi.fpvars["start"], fi.fpvars["m"], fi.fpvars["dt"]
         z = st == z3.FPVal(0.0, fpx.F64)
-        return [("start=0, m<=15", [z, z3.ULE(m, 15)]), ("start=0", [z]), ("m<=15", [z3.ULE(m, 15)])]
+        return _exact_start_instances(st, dt, m) + [("start=0, m<=15", [z, z3.ULE(m, 15)]), ("start=0", [z]), ("m<=15", [z3.ULE(m, 15)])]
 
     def run(self, inp):
         fi = FInputs.wrap(inp)
@@ -247,6 +256,39 @@ class StepsOffGrid(FCase):
         ok = (n == m) and outs.get("n_e2e", m) == m
         return [FOb("off-grid: number of steps == lower grid index", ok, key="num_steps_offgrid", outputs={"n": n},
                     info="start=%r dt=%r end=%r m=%d: computed %s" % (start, dt, end, m, outs))]
+
+
+class StepsExact(Case):
+    """exact arithmetic: concrete non-zero binary-exact start_time and dt, symbolic integer target e,
+    end_time = start + e*dt exactly (no rounding anywhere, also in the real floats of the replay):
+    number of steps == e.  Linear integer queries; a model (e) replays directly."""
+    env = {"extra": fpx.shadows(*FP_MODULES)}
+    stubs = StepsOnGrid.stubs
+    timeout_s = 60
+    N = 8
+
+    def __init__(self, site):
+        self.site = SITES[site]()
+        self.id = "%sx/%s" % (self.site.prefix, site)
+        self.bounds = {"e": [self.site.m_lo, self.N], "(start, dt)": EXACT_PAIRS}
+        self.functions = self.site.functions
+
+    def run(self, inp):
+        e = inp.int("e", self.site.m_lo, self.N)
+        obs = []
+        for a, b in EXACT_PAIRS:
+            label = "start=%g dt=%g: number of steps == e" % (a, b)
+            if inp.mode == "real":
+                n, outs = self.site.real_steps(a, b, a + e * b, e)
+                obs.append(Ob.holds(label, n == e and outs.get("n_e2e", e) == e, key="num_steps_exact",
+                                    info="e=%d: computed %s" % (e, outs)))
+            else:
+                start, dt = st(S(Fraction(a))), st(S(Fraction(b)))
+                end = start + e * dt
+                with exact_floats():
+                    n = self.site.sym_steps(start, dt, end)
+                obs.append(Ob.holds(label, n == e, key="num_steps_exact"))
+        return obs
 
 
 # ==========================================================================
@@ -579,14 +621,16 @@ class ComputeLoop(Case):
     NMAX = 4
     env = {"extra": dict(_e1_env("oqupy.dynamics")["extra"], **fpx.shadows("oqupy.tempo", "oqupy.util"))}
     stubs = ("TempoBackend / MeanFieldTempoBackend -> counting stub (initialize/compute_step/step)",)
-    assumptions = ("dt > 0", "exact real arithmetic: end_time = start + (m+theta)*dt with 0 <= theta < 1")
+    assumptions = ("dt concrete and binary exact (1/4; 1/2 in the thorough tier), start_time symbolic",
+                   "exact real arithmetic: end_time = start + (m+theta)*dt with 0 <= theta < 1")
     timeout_s = 60
 
-    def __init__(self, kind, nmax=4):
+    def __init__(self, kind, nmax=4, dt=Fraction(1, 4)):
         self.kind = kind
         self.NMAX = nmax
-        self.id = "H2/%s.compute" % kind
-        self.bounds = {"m": [0, self.NMAX], "calls": 2}
+        self.dt = Fraction(dt)
+        self.id = "H2/%s.compute" % kind + ("" if self.dt == Fraction(1, 4) else "/dt=%s" % self.dt)
+        self.bounds = {"m": [0, self.NMAX], "calls": 2, "dt": str(self.dt), "start_time": "symbolic"}
         self.functions = ("oqupy/tempo.py:%s.compute" % kind, "oqupy/tempo.py:%s._get_num_step" % kind, "oqupy/tempo.py:%s._time" % kind)
 
     def run(self, inp):
@@ -594,7 +638,9 @@ class ComputeLoop(Case):
         m1 = inp.int("m1", 0, self.NMAX)
         m2 = inp.int("m2", 0, self.NMAX)
         start = st(inp.real("start"))
-        dt = st(inp.real("dt", lo=Fraction(1, 100)))
+        # dt concrete and binary exact (symbolic start): every query stays linear -- with a symbolic dt a wrong
+        # step count (e.g. a dropped start_time) leads nlsat into queries that ignore their timeout
+        dt = float(self.dt) if inp.mode == "real" else st(S(self.dt))
         th1 = inp.real("th1", lo=0, hi=Fraction(99, 100))
         th2 = inp.real("th2", lo=0, hi=Fraction(99, 100))
         cs = [inp.real("c%d" % k) for k in range(self.NMAX)]
@@ -782,6 +828,9 @@ def e1_cases(tier):
     for ra in (True, False):
         cs += [LabelsComputeDynamics(ra, n), LabelsWithField(ra, n), LabelsGradient(ra, n)]
     cs += [LabelsWithField(True, zero_steps=True)]
+    cs += [StepsExact("Tempo"), StepsExact("MeanFieldTempo"), StepsExact("PtTempo")]
+    if tier == "thorough":
+        cs += [ComputeLoop("Tempo", 5, Fraction(1, 2)), ComputeLoop("MeanFieldTempo", 5, Fraction(1, 2))]
     cs += [ComputeLoop("Tempo", 4 if tier == "quick" else 6), ComputeLoop("MeanFieldTempo", 4 if tier == "quick" else 6), PtTebdLoop()]
     cs += [DynamicsAdd("Dynamics", 3), DynamicsAdd("MeanFieldDynamics", 3)]
     if tier == "thorough":
